@@ -347,6 +347,10 @@ fn run(ctx: &mut Ctx) {
                 (1, "a") => "x".to_string(),
                 (1, "b") => "Q".to_string(),
                 (1, "X") => "X".to_string(),
+                // a name that begins with an apostrophe next to the same name without it
+                (2, "a") => "'a".to_string(),
+                (2, "b") => "a".to_string(),
+                (2, "X") => "'X'".to_string(),
                 (_, o) => o.to_string(),
             };
             match a {
@@ -371,7 +375,7 @@ fn run(ctx: &mut Ctx) {
                 }
             });
             for a in todo {
-                for set in 0..2 {
+                for set in 0..3 {
                     let ra = ren(&a, set);
                     let text = refl::pp(&ra, refl::MINIMAL);
                     if refl::parse(&text).as_ref() != Ok(&ra) {
